@@ -1,7 +1,39 @@
-import PvlModel.Model.Spec
+import PvlModel.Lemmas.ParseSpec
 /-!
-# C09
-(theorems are added below as they are proved; see DESIGN §5)
+# C09 — nothing after END matters: the parser requests no token beyond the END statement
+
+The model's lexer generator hands out tokens one at a time (`P.next`); `ParseResult.last` is the last
+token it produced when `parse()` returned and `exhausted` says whether it was asked for more after the
+tokens had run out.  Each `Token` records `last`, the index of the last character the lexer had examined
+when it yielded the token, so "how far the text was read" is `t.last` of the last token.
+
+The entry-point half of C09 (path / URL / stream / bytes fall-backs in `pvl/__init__.py`) is runtime
+behaviour of CPython's codecs and file objects; it is checked against the real code only (see
+`vlib/props/c09.py`).
 -/
 namespace Pvl
+open P
+
+/-- **C09, END stops the lexer**: whenever `parse()` returns a module, either the lexer ran to the end
+    of the text (and did so without a `LexerError`), or the *last* token it was ever asked for is an END
+    statement — nothing behind the END statement was lexed on behalf of the parser.  For every grammar
+    table, decoder, parser class and text. -/
+theorem C09_stops_at_end (g : Grammar) (d : Dec) (kind : ParserKind) (prior : List Int) (text : Str)
+    (m : Items) (h : (parseWith g d kind prior text).outcome = .ok m) :
+    ((parseWith g d kind prior text).exhausted = true ∧ (lexAll g d (docOf kind text)).2 = .eof) ∨
+    (∃ t, (parseWith g d kind prior text).last = some t ∧ Tok.isEndStatement g t.text = true) := by
+  have hs := parse_spec g d kind prior text
+  rw [h] at hs
+  exact hs
+
+/-- a `LexerError` lying in wait behind the END statement is never reached: if the lexer would fail
+    somewhere in the text and a module is returned all the same, the parser stopped at END -/
+theorem C09_garbage_after_end (g : Grammar) (d : Dec) (kind : ParserKind) (prior : List Int) (text : Str)
+    (m : Items) (p : Int) (h : (parseWith g d kind prior text).outcome = .ok m)
+    (hl : (lexAll g d (docOf kind text)).2 = .lexerr p) :
+    ∃ t, (parseWith g d kind prior text).last = some t ∧ Tok.isEndStatement g t.text = true := by
+  rcases C09_stops_at_end g d kind prior text m h with ⟨_, h2⟩ | h2
+  · rw [hl] at h2; cases h2
+  · exact h2
+
 end Pvl
